@@ -196,23 +196,8 @@ def gen_cases(ck, tier):
 # -------------------------------------------------------------------- known-finding classes
 def classify_gs(case, sanchor, flags):
     ids = []
-    if sanchor:
-        ids.append("C15-gsub-ignores-anchor")
     if "k" in flags:
         ids.append("C15-gsub-counts-skipped-empty-match")
-    if "e" in flags:
-        ids.append("C15-gsub-empty-result-returns-subject")
-    r = case.repl
-    # a '%' that is the last byte of the replacement (after pairing) or is followed by \n
-    i = 0
-    while i < len(r):
-        if r[i:i + 1] == b"%":
-            if i + 1 >= len(r) or r[i + 1:i + 2] == b"\n":
-                ids.append("C15-gsub-repl-trailing-percent")
-                break
-            i += 2
-        else:
-            i += 1
     return ids
 
 
@@ -247,6 +232,10 @@ def compare(ck, case, G, O, stats):
         stats["err:" + gb[4:].rstrip("0123456789")] = stats.get("err:" + gb[4:].rstrip("0123456789"), 0) + 1
         return probs, known_hits, False
     sanchor = gb.split(":")[2][0] == "1"
+    # hypothesis of C15_api_equiv_spec on the builder's output
+    if O.get("WF") != "1":
+        probs.append(("go-im", "B", "the compiled pattern violates Top.wf_pattern (hypothesis of C15_api_equiv_spec): " + gb))
+    stats["wf_pattern-true"] = stats.get("wf_pattern-true", 0) + (1 if O.get("WF") == "1" else 0)
     brp = O.get("BRP") == "1"
     beyond = case.init > len(case.s)
     # ---------------- API level
@@ -258,12 +247,7 @@ def compare(ck, case, G, O, stats):
             continue
         gres, gused, gpan = g.split("/")
         if gpan == "1":
-            if brp:
-                known_hits.append("C15-backref-position-capture-panics")
-            elif beyond and sanchor and key == "MS":
-                known_hits.append("C15-match-init-beyond-end-anchored")
-            else:
-                probs.append(("panic", key, "Go run-time panic inside the matcher (hidden by recover): " + g))
+            probs.append(("panic", key, "Go run-time panic inside the matcher (hidden by recover): " + g))
         killed = bool(case.bud) and int(gused) == case.bud + 1     # a budget kill legitimately yields nil
         if not beyond and gpan == "0" and not killed and O.get(skey) is not None and gres != O.get(skey):
             probs.append(("go-s", key, "%s vs manual %s" % (gres, O.get(skey))))
@@ -286,8 +270,6 @@ def compare(ck, case, G, O, stats):
         ids = []
         if key == "F" and len(case.ptn) == 0 and case.init > 0:
             ids = ["C15-find-empty-pattern-drops-init"]
-        elif key == "M" and beyond and sanchor:
-            ids = ["C15-match-init-beyond-end-anchored"]
         elif key == "GM" and sanchor:
             stats["gmatch-anchored-unobserved"] = stats.get("gmatch-anchored-unobserved", 0) + 1
             continue
@@ -304,7 +286,7 @@ def compare(ck, case, G, O, stats):
 
 FN = {"F": "string.find", "M": "string.match", "GM": "string.gmatch", "GS": "string.gsub",
       "MS": "Pattern.MatchFromStart", "MM": "Pattern.Match", "B": "pattern.New"}
-THEOREMS = ["C15_machine_equiv_spec_partial", "C15_masks_correct", "C15_machine_no_panic_refuted", "C15_gsub_*_refuted"]
+THEOREMS = ["C15_api_equiv_spec", "C15_machine_equiv_spec_find", "C15_machine_equiv_spec_at", "C15_run_budget", "C15_masks_correct", "C15_gsub_count_refuted"]
 
 
 def evaluate(ck, gvh, oracle, cases, stats, report=True):
@@ -504,8 +486,9 @@ def run(tier, seed):
         assumptions=["init is given already normalised (0-based, >= 0); negative / huge init handling belongs to C19",
                      "gsub with table or function replacement is not modelled",
                      "gmatch with a ^-anchored pattern is compared with the IM only (the manual leaves it open)",
-                     "machine_equiv_spec is proved for patterns without back-references and for the match span only (_partial); "
-                     "the three-way agreement Go = Machine = Spec on captures and back-references rests on the enumeration"])
+                     "C15_api_equiv_spec assumes Top.wf_pattern of the compiled items; it is evaluated (true) on every pattern the builder "
+                     "accepted in this run (distribution key wf_pattern-true) but not proved of Build.v",
+                     "the Lua-level drivers (find/match/gmatch/gsub IM vs S) are related by the enumeration, not by a theorem"])
 
 
 def replay(path, seed):
